@@ -217,6 +217,13 @@ func setup() (*world, error) {
 	// suffix (stands for any directory the server cannot write the compressed copy into)
 	os.MkdirAll(filepath.Join(wd.root, "d4"), 0o755)
 	os.WriteFile(filepath.Join(wd.root, "d4", longIndex), []byte(indexBody("d4")), 0o644)
+	// a directory that contains a directory named like an index file: that is no index file,
+	// the next index name (d7) or the generated listing (d6) answers
+	os.MkdirAll(filepath.Join(wd.root, "d6", "index.html"), 0o755)
+	os.WriteFile(filepath.Join(wd.root, "d6", "x.txt"), []byte("x-in-d6"), 0o644)
+	os.WriteFile(filepath.Join(wd.root, "d6", "y.txt"), []byte("y-in-d6"), 0o644)
+	os.MkdirAll(filepath.Join(wd.root, "d7", "missing.html"), 0o755)
+	os.WriteFile(filepath.Join(wd.root, "d7", "index.html"), []byte(indexBody("d7")), 0o644)
 	// a directory whose generated listing is larger than the 8 KiB small-file threshold
 	os.MkdirAll(filepath.Join(wd.root, "d3"), 0o755)
 	for i := 0; i < 200; i++ {
@@ -597,7 +604,9 @@ func work(w *mon.W) {
 				{method: r.Str("GET", "HEAD"), file: "d3/", kind: "listing", L: -1}, {method: "GET", file: "d3/", kind: "listing", L: -1}}
 			if en == wd.engines[4] {
 				qs = append(qs, reqSpec{method: "GET", file: "d4/", kind: "index", L: -1}, reqSpec{method: "HEAD", file: "d4/", kind: "index", L: -1})
+				qs = append(qs, reqSpec{method: r.Str("GET", "HEAD"), file: "d7/", kind: "index", L: -1})
 			}
+			qs = append(qs, reqSpec{method: r.Str("GET", "HEAD"), file: "d6/", kind: "listing", L: -1})
 			for i := range qs {
 				qs[i].gzip = gz
 			}
